@@ -144,6 +144,8 @@ impl<'a, E: Elem> CbArg<E> for &'a mut E {
 pub struct CbCtx {
     pub k: Cell<i64>,
     pub panic_at: i64,
+    /// searching consumers: the call index at which the scripted predicate gives the answer that ends the search
+    pub stop_at: i64,
     /// callback k passes its (first by-value) argument through as the result when k % 2 == pass_mod
     pub pass_mod: i64,
 }
@@ -216,6 +218,20 @@ impl CbCtx {
         ev!("\"ev\":\"cb_ret\",\"k\":{},\"ret\":[{}],\"acc\":0,\"panic\":false", k, y.id());
         self.k.set(k + 1);
         y
+    }
+    /// scripted predicate of position / any / all / find ...: `ending` is the answer that ends the search
+    fn pred<E: Elem, A: CbArg<E>>(&self, a: A, ending: bool) -> bool {
+        let k = self.k.get();
+        ev!("\"ev\":\"cb\",\"k\":{},\"idx\":-1,\"args\":[{}],\"acc\":0,\"pv\":-1", k, a.aid());
+        a.consume();
+        if k == self.panic_at {
+            ev!("\"ev\":\"cb_ret\",\"k\":{},\"ret\":[],\"acc\":0,\"panic\":true", k);
+            injected_panic();
+        }
+        let stop = k == self.stop_at;
+        ev!("\"ev\":\"cb_ret\",\"k\":{},\"ret\":[],\"acc\":{},\"panic\":false", k, stop as i64);
+        self.k.set(k + 1);
+        if stop { ending } else { !ending }
     }
     fn fold<E: Elem, A: CbArg<E>>(&self, acc: i64, a: A) -> i64 {
         let k = self.k.get();
@@ -458,7 +474,7 @@ impl<E: Elem> Interp<E> {
             None => vals.first().map(|v| describe(v).items.len() as i64).unwrap_or(0),
         };
         let mut truthful = st.get("hint").is_none();
-        let (okind, arg) = if op == "deserialize" {
+        let (okind, arg) = if op == "deserialize" || op == "deserialize_in_place" {
             truthful = ju(st, "bad_at").unwrap_or(-1) < 0;
             if js(st, "src") == "script" { ("script".to_string(), -1) } else { ("opaque".to_string(), ju(st, "l").unwrap_or(0)) }
         } else {
@@ -471,6 +487,7 @@ impl<E: Elem> Interp<E> {
             "builder_abandon" | "intrusive_abandon" => "generate",
             "builder_extend" | "intrusive_extend" => "builder_extend",
             "consumer_abandon" | "zipx_plain_out" => "fold",
+            "iter_for_each" => "iter_fold",
             x => x,
         };
         ev!(
@@ -485,7 +502,7 @@ impl<E: Elem> Interp<E> {
             truthful,
             spare
         );
-        let ctx = CbCtx { k: Cell::new(0), panic_at, pass_mod };
+        let ctx = CbCtx { k: Cell::new(0), panic_at, pass_mod, stop_at: if op.starts_with("iter_") { arg } else { -1 } };
         let script = st.clone();
         let r = {
             let vals_ref = &mut vals;
@@ -583,6 +600,7 @@ fn default_form(op: &str) -> &'static str {
     match op {
         "serialize" => "ref",
         "next" | "next_back" | "nth" | "nth_back" | "len" | "size_hint" | "as_slice" | "as_mut_swap" | "debug" | "iter_clone" | "clone" | "box_clone" | "clone_from" | "iter_clone_from" => "ref",
+        "iter_position" | "iter_rposition" | "iter_any" | "iter_all" | "iter_find" | "iter_rfind" | "deserialize_in_place" => "ref",
         _ => "own",
     }
 }
@@ -780,6 +798,27 @@ fn exec<E: Elem>(op: &str, vals: &mut Vec<Val<E>>, forms: &[String], arg: i64, m
             o.res = with_iter!(take(vals, 0), it => it.rfold(0i64, |acc, x| ctx.fold::<E, E>(acc, x)), bad());
             o
         }
+        // Iterator::for_each is a fold whose accumulator lives in the closure (logged as iter_fold)
+        "iter_for_each" => {
+            let mut o = Outcome::new();
+            let acc = Cell::new(0i64);
+            with_iter!(take(vals, 0), it => it.for_each(|x| acc.set(ctx.fold::<E, E>(acc.get(), x))), bad());
+            o.res = acc.get();
+            o
+        }
+        // searching consumers on `&mut iter`: scripted predicate (ends the search at call index `arg`)
+        "iter_position" | "iter_rposition" | "iter_any" | "iter_all" | "iter_find" | "iter_rfind" => {
+            let mut o = Outcome::new();
+            with_iter!(&mut vals[0], it => match op {
+                "iter_position" => o.res = it.position(|x| ctx.pred::<E, E>(x, true)).map(|p| p as i64).unwrap_or(-1),
+                "iter_rposition" => o.res = it.rposition(|x| ctx.pred::<E, E>(x, true)).map(|p| p as i64).unwrap_or(-1),
+                "iter_any" => o.res = it.any(|x| ctx.pred::<E, E>(x, true)) as i64,
+                "iter_all" => o.res = it.all(|x| ctx.pred::<E, E>(x, false)) as i64,
+                "iter_find" => o.vals.extend(it.find(|x| ctx.pred::<E, &E>(x, true))),
+                _ => o.vals.extend(it.rfind(|x| ctx.pred::<E, &E>(x, true))),
+            }, bad());
+            o
+        }
         "iter_clone" => Outcome::outs([with_iter!(&vals[0], it => it.clone().wrap(), bad())]),
         // Clone::clone_from: operand 0 is overwritten with clones of operand 1 (both stay in the pool)
         "clone_from" | "iter_clone_from" => {
@@ -974,6 +1013,23 @@ fn exec<E: Elem>(op: &str, vals: &mut Vec<Val<E>>, forms: &[String], arg: i64, m
             }])
         }
         // ---- serde ---------------------------------------------------------------------------
+        // serde's hidden in-place entry point, scripted sources only: operand 0 is the place
+        "deserialize_in_place" => {
+            let _pre = crate::events::Bypass::new();
+            let script: Vec<u8> = jarr(st, "script").into_iter().map(|x| x as u8).collect();
+            let hints = match st.get("hints") {
+                None => crate::serde_drv::HintMode::Absent,
+                Some(J::String(s)) if s == "truthful" => crate::serde_drv::HintMode::Truthful,
+                Some(J::Array(a)) => crate::serde_drv::HintMode::Fixed(a.iter().map(|x| x.as_i64().unwrap()).collect()),
+                _ => crate::serde_drv::HintMode::Absent,
+            };
+            let human_readable = st.get("hr").and_then(|x| x.as_bool()).unwrap_or(true);
+            let de = crate::serde_drv::ScriptDe { script, hints, human_readable };
+            let mut o = Outcome::new();
+            drop(_pre);
+            o.err = with_arr!(&mut vals[0], a => serde::Deserialize::deserialize_in_place(de, a).is_err(), bad());
+            o
+        }
         "deserialize" => {
             let _pre = crate::events::Bypass::new();
             let src = js(st, "src").to_string();
@@ -1047,10 +1103,12 @@ fn exec<E: Elem>(op: &str, vals: &mut Vec<Val<E>>, forms: &[String], arg: i64, m
         "try_from_iter" | "from_iter" | "try_boxed_from_iter" | "boxed_from_iter" => {
             let _pre = crate::events::Bypass::new();
             let script: Vec<u8> = jarr(st, "script").into_iter().map(|x| x as u8).collect();
+            // (2^31 - 1 stands for usize::MAX in either bound)
             let hint = st.get("hint").and_then(|h| h.as_array()).map(|h| {
-                let lo = h[0].as_i64().unwrap() as usize;
+                let wide = |x: i64| if x >= i32::MAX as i64 { usize::MAX } else { x as usize };
+                let lo = wide(h[0].as_i64().unwrap());
                 let hi = h[1].as_i64().unwrap();
-                (lo, if hi < 0 { None } else { Some(hi as usize) })
+                (lo, if hi < 0 { None } else { Some(wide(hi)) })
             });
             let src = ScriptedIter::<E> { script, pos: 0, hint, _p: std::marker::PhantomData };
             let mut o = Outcome::new();
